@@ -477,7 +477,7 @@ impl<'m> MCTPSMBusContext<'m> {
     /// On success the first two arguments are the same as
     /// the return from the `decode_packet()` function. The third argument is
     /// an option. If `None` then `response_buf` wasn't changed because the
-    /// `packet` was not a request. If `Some` it contains the length of the
+    /// `packet` was not a request this endpoint answers. If `Some` it contains the length of the
     /// data written in the `response_buf`.
     pub fn process_packet<'a>(
         &self,
@@ -507,7 +507,6 @@ impl<'m> MCTPSMBusContext<'m> {
                     let len;
 
                     match header.command_code().into() {
-                        CommandCode::Reserved => unreachable!(),
                         CommandCode::SetEndpointID => {
                             if payload[0] == MCTPSetEndpointIDOperations::SetEID as u8
                                 || payload[0] == MCTPSetEndpointIDOperations::ForceEID as u8
@@ -638,21 +637,9 @@ impl<'m> MCTPSMBusContext<'m> {
                                 unreachable!()
                             };
                         }
-                        CommandCode::ResolveEndpointID => unimplemented!(),
-                        CommandCode::AllocateEndpointIDs => unimplemented!(),
-                        CommandCode::RoutingInformationUpdate => unimplemented!(),
-                        CommandCode::GetRoutingTableEntries => unimplemented!(),
-                        CommandCode::PrepareForEndpointDiscovery => unimplemented!(),
-                        CommandCode::EndpointDiscovery => unimplemented!(),
-                        CommandCode::DiscoveryNotify => unimplemented!(),
-                        CommandCode::GetNetworkID => unimplemented!(),
-                        CommandCode::QueryHop => unimplemented!(),
-                        CommandCode::ResolveUUID => unimplemented!(),
-                        CommandCode::QueryRateLimit => unimplemented!(),
-                        CommandCode::RequestTXRateLimit => unimplemented!(),
-                        CommandCode::UpdateRateLimit => unimplemented!(),
-                        CommandCode::QuerySupportedInterfaces => unimplemented!(),
-                        _ => unimplemented!(),
+                        // Commands this endpoint does not answer are reported to the
+                        // caller without a response, the caller handles the payload
+                        _ => return Ok(((msg_type, payload), None)),
                     }
 
                     return Ok(((msg_type, payload), Some(len)));
